@@ -520,3 +520,7 @@ M('C07', 'benign: interp length test with len()', 'function.py', "        if num
 M('C07', 'benign: eig test split in two', 'function.py', "    def eig(a):\n        if a.ndim < 2 or a.shape[-2] != a.shape[-1]:\n            raise ValueError('Last 2 dimensions of the array must be square')\n", "    def eig(a):\n        if a.ndim < 2 or a.shape[-1] != a.shape[-2]:\n            raise numpy.linalg.LinAlgError('Last 2 dimensions of the array must be square')\n", expect='silent')
 M('C07', 'benign: searchsorted test after the side test', 'function.py', "        if array.ndim != 1:\n            raise ValueError('the array to search must be one-dimensional')\n        if side not in ('left', 'right'):\n            raise ValueError(f'expected \"left\" or \"right\", got {side}')\n", "        if side not in ('left', 'right'):\n            raise ValueError(f'expected \"left\" or \"right\", got {side}')\n        if array.ndim != 1:\n            raise ValueError('the array to search must be one-dimensional')\n", expect='silent')
 M('C07', 'benign twin of F20: subscript refuses two index arrays', 'function.py', "        array = self\n        axis = 0\n        for it in item + (slice(None),)*nx if iell is None", "        if sum(numpy.ndim(it) > 0 for it in item if it is not ... and it is not numpy.newaxis and not isinstance(it, slice)) > 1:\n            raise NotImplementedError('more than one index array')\n        array = self\n        axis = 0\n        for it in item + (slice(None),)*nx if iell is None", expect='silent')
+M('C13', 'revert F21: argument values converted with an unchecked cast', 'evaluable.py', "get_attr('asarray').call(builder.get_argument(self.name)).get_attr('astype').call(self.ast_dtype, casting=_pyast.LiteralStr('same_kind'), copy=_pyast.LiteralBool(False)))", "get_attr('asarray').call(builder.get_argument(self.name), dtype=self.ast_dtype))", rule='R13.6')
+M('C13', 'argument values converted with casting unsafe', 'evaluable.py', "casting=_pyast.LiteralStr('same_kind'), copy=_pyast.LiteralBool(False)))", "casting=_pyast.LiteralStr('unsafe'), copy=_pyast.LiteralBool(False)))", rule='R13.6')
+M('C13', 'benign: argument values converted with casting safe', 'evaluable.py', "casting=_pyast.LiteralStr('same_kind'), copy=_pyast.LiteralBool(False)))", "casting=_pyast.LiteralStr('safe'), copy=_pyast.LiteralBool(False)))", expect='silent')
+M('C13', 'argument values not converted at all', 'evaluable.py', "get_attr('asarray').call(builder.get_argument(self.name)).get_attr('astype').call(self.ast_dtype, casting=_pyast.LiteralStr('same_kind'), copy=_pyast.LiteralBool(False)))", "get_attr('asarray').call(builder.get_argument(self.name)))", rule='R13.3')
